@@ -223,6 +223,37 @@ def r3_join(ctx) -> None:
     if names:
         body = [ast.fix_missing_locations(_norm._Subst(dict(names)).visit(_copy.deepcopy(s_))) for s_ in body
                 if not (isinstance(s_, ast.Assign) and len(s_.targets) == 1 and isinstance(s_.targets[0], ast.Name) and s_.targets[0].id in names)]
+    # fast paths on the NUMBER of arguments before the fold (`if not bs: return Copyable`, `if len(bs) <= 1: return ..`): judged per length
+    # class 0 / 1 / 2+ -- a constant answer is right for no argument only (Copyable); for one argument the answer is that argument
+    def len_test(t, n):
+        """truth of a test about len(bs) / bs for n arguments; None when it is about something else"""
+        if isinstance(t, ast.UnaryOp) and isinstance(t.op, ast.Not):
+            r = len_test(t.operand, n)
+            return None if r is None else not r
+        if isinstance(t, ast.Name) and t.id == var:
+            return n > 0
+        if isinstance(t, ast.Compare) and len(t.ops) == 1 and u(t.left) == f"len({var})" and isinstance(t.comparators[0], ast.Constant) and type(t.comparators[0].value) is int:
+            k_, op = t.comparators[0].value, t.ops[0]
+            return {ast.Eq: n == k_, ast.NotEq: n != k_, ast.Lt: n < k_, ast.LtE: n <= k_, ast.Gt: n > k_, ast.GtE: n >= k_}.get(type(op))
+        return None
+    kept = []
+    work_ = list(body)
+    while work_:
+        st = work_.pop(0)
+        if isinstance(st, ast.If) and len(st.body) == 1 and isinstance(st.body[0], ast.Return) and len_test(st.test, 0) is not None:
+            work_ = list(st.orelse) + work_          # (what follows the shortcut, written as its else-part by the canonical form or not)
+            rv = st.body[0].value
+            for n_, label in ((0, "no argument"), (1, "one argument"), (2, "two or more arguments")):
+                if not len_test(st.test, n_):
+                    continue
+                lit = _lit(rv) if rv is not None else None
+                good = (n_ == 0 and lit == C_) or (n_ == 1 and rv is not None and u(rv) in (f"{var}[0]", f"{var}[-1]"))
+                ctx.check(good, "C07.R3", f"TypeBound.join: fast path for {label}", file, st.lineno,
+                          f"the shortcut `{u(st.test)}` answers `{u(rv) if rv is not None else None}` for {label}: the join of no bounds is Copyable, the join of one "
+                          "bound is that bound, and no constant is the join of two or more", st)
+            continue
+        kept.append(st)
+    body = kept
     # shape: init*, for b in bs: BODY, return res
     loops = [s for s in body if isinstance(s, ast.For)]
     if len(loops) != 1 or not isinstance(loops[0].target, ast.Name) or u(loops[0].iter) != var or loops[0].orelse:
